@@ -473,7 +473,7 @@ func (fr *FuncRun) enterLoop(f *Frame, head *ssa.BasicBlock, body map[*ssa.Basic
 		if t := cellType(c); t != nil {
 			fr.rangeAssume(cur, nv.T, t)
 			if st, isSlice := t.Underlying().(*types.Slice); isSlice && nv.FreshArr {
-				fr.assume(cur, fmt.Sprintf("(or (= (s-arr %s) 0) (and (> (s-arr %s) AllocBase) (<= (s-arr %s) %s)))", nv.T, nv.T, nv.T, newTop))
+				fr.assume(cur, fmt.Sprintf("(or (= (s-arr %s) 0) (and (= (fa_root (s-arr %s)) (s-arr %s)) (> (s-arr %s) AllocBase) (<= (s-arr %s) %s)))", nv.T, nv.T, nv.T, nv.T, nv.T, newTop))
 				eh := w.ElemHeap(st.Elem())
 				excl[eh] = append(excl[eh], "(s-arr "+old.T+")")
 			}
@@ -534,11 +534,11 @@ func (fr *FuncRun) enterLoop(f *Frame, head *ssa.BasicBlock, body map[*ssa.Basic
 			}
 		}
 		a := fr.freshName("a")
-		conds := []string{fmt.Sprintf("(or (and (> %s 0) (<= %s %s)) (and (< %s 0) (<= (fa_root %s) %s)))", a, a, topAtEntry, a, a, topAtEntry)}
+		conds := []string{fmt.Sprintf("(and (not (= %s 0)) (<= (fa_root %s) %s))", a, a, topAtEntry)}
 		for _, x := range inv {
 			conds = append(conds, "(not (= "+a+" "+x+"))")
 		}
-		fr.assume(cur, fmt.Sprintf("(forall ((%s Int)) (=> %s (= (select %s %s) (select %s %s))))", a, and(conds...), cur.heaps[h], a, fr.heapCur(pre, h), a))
+		fr.assume(cur, fmt.Sprintf("(forall ((%s Int)) (! (=> %s (= (select %s %s) (select %s %s))) :pattern ((select %s %s)) :pattern ((select %s %s))))", a, and(conds...), cur.heaps[h], a, fr.heapCur(pre, h), a, cur.heaps[h], a, fr.heapCur(pre, h), a))
 	}
 	// 5. assume invariants
 	fr.assumeInvariants(f, head, cur, pre)
@@ -568,7 +568,7 @@ func (fr *FuncRun) val(f *Frame, st *State, v ssa.Value) Val {
 		fr.w.declFun(name, fmt.Sprintf("(declare-fun %s () Int)", name))
 		key := "glob:" + name
 		if fr.once(key) {
-			fr.emit(fmt.Sprintf("(assert (and (> %s 0) (<= %s AllocBase)))", name, name))
+			fr.emit(fmt.Sprintf("(assert (and (> %s 0) (<= (fa_root %s) AllocBase)))", name, name))
 			// a package-level variable that is never written keeps its zero value
 			elem := x.Type().(*types.Pointer).Elem()
 			if fr.eng.neverWritten(x) {
